@@ -436,6 +436,72 @@ fn verif_keyset_two_endpoints_update() {
     kani::cover!(true, "both endpoints at generation 1");
 }
 
+// C06: a packet that no held key authenticates (forged, bit-flipped, replayed under a discarded
+// generation) is only ever DROPPED: the verdict is a decrypt error - whatever its unauthenticated
+// header bits, in particular the reserved bits, say - or, exactly at the integrity limit,
+// AEAD_LIMIT_REACHED; never PROTOCOL_VIOLATION or any other connection error. An authentic packet
+// with reserved bits set is a PROTOCOL_VIOLATION (RFC 9000 17.3.1: checked AFTER removing packet
+// protection).
+#[cfg_attr(kani, kani::proof)]
+#[cfg_attr(kani, kani::unwind(10))]
+#[cfg_attr(kani, kani::stub(core::panic::Location::caller, StubLoc::caller))]
+fn verif_keyset_forged_packet_only_dropped() {
+    let (mut ks, pre) = any_keyset();
+    let pkt = any_pkt();
+    let reserved: u8 = kani::any();
+    kani::assume(reserved < 4);
+    let mut bytes = [0u8; 8];
+    // short header: 0 1 S R R K P P - both reserved bits symbolic
+    bytes[0] = 0x40 | (reserved << 3);
+    let sg = pkt.sealed_gen.to_le_bytes();
+    bytes[3] = sg[0];
+    bytes[4] = sg[1];
+    let mut shadow = [0u8; 8];
+    let orig = DecoderBufferMut::new(&mut shadow);
+    let dcid = {
+        let mut tmp = [0u8; 8];
+        let b = DecoderBufferMut::new(&mut tmp);
+        let b = b.skip(1).unwrap();
+        let (r, _rest) = b.skip_into_range(1, &orig).unwrap();
+        r
+    };
+    let pn_len = PacketNumberSpace::ApplicationData.new_packet_number_len(0);
+    let packet = Short {
+        spin_bit: Default::default(),
+        key_phase: pkt.phase,
+        destination_connection_id: dcid,
+        packet_number: PacketNumberSpace::ApplicationData.new_packet_number(VarInt::new(pkt.pn).unwrap()),
+        payload: EncryptedPayload::new(2, pn_len, &mut bytes),
+    };
+    let pto = crate::time::NoopClock.get_time() + core::time::Duration::from_secs(20);
+    let largest_acked = PacketNumberSpace::ApplicationData.new_packet_number(VarInt::new(pkt.largest_acked).unwrap());
+    // generations held: g in the active slot, g+1 (or g-1 during an update) in the other one
+    let other_gen = if pre.in_progress { pre.g - 1 } else { pre.g + 1 };
+    let forged = pkt.sealed_gen != pre.g && pkt.sealed_gen != other_gen;
+    let res = ks.decrypt_packet(packet, largest_acked, pto);
+    if forged {
+        match res {
+            Ok(_) => panic!("a packet sealed under no held key was accepted"),
+            Err(ProcessingError::DecryptError) => {
+                kani::cover!(reserved != 0, "forged packet with reserved bits set is only dropped");
+            }
+            Err(ProcessingError::ConnectionError(crate::connection::Error::Transport { code, .. })) => {
+                // the only connection error a forged packet may cause: the integrity limit itself
+                assert!(code == transport::Error::AEAD_LIMIT_REACHED.code);
+                assert!(pre.failures + 1 >= pre.integ);
+                kani::cover!(true, "integrity limit reached by a forged packet");
+            }
+            Err(_) => panic!("forged packet caused a connection error"),
+        }
+    } else if let Err(ProcessingError::ConnectionError(crate::connection::Error::Transport { code, .. })) = res {
+        if code == transport::Error::PROTOCOL_VIOLATION.code {
+            // only an authentic packet can be blamed for its reserved bits
+            assert!(reserved != 0);
+            kani::cover!(true, "authentic packet with reserved bits rejected");
+        }
+    }
+}
+
 // ---- generated by tools/fixup.py: native replay entry ----
 #[cfg(not(kani))]
 #[test]
@@ -445,5 +511,6 @@ fn verif_replay() {
         ("verif_keyset_decrypt_step", verif_keyset_decrypt_step),
         ("verif_keyset_timeout_step", verif_keyset_timeout_step),
         ("verif_keyset_two_endpoints_update", verif_keyset_two_endpoints_update),
+        ("verif_keyset_forged_packet_only_dropped", verif_keyset_forged_packet_only_dropped),
     ]);
 }
